@@ -365,22 +365,24 @@ func (r *RdbReader) ReadZipmapItem(buf *util.SliceBuffer, readFree bool) []byte 
 	return value
 }
 
+// redis, zipmap.c:zipmapDecodeLength
+// <len> is 1 byte if the length is < 254(ZIPMAP_BIGLEN), else it is the byte 254
+// followed by a 4 bytes little endian length. 255(ZIPMAP_END) terminates the zipmap.
+// <free> is 1 byte and only follows the <len> of a value.
 func readZipmapItemLength(buf *util.SliceBuffer, readFree bool) (int, int) {
 	b := buf.ReadByte()
-	switch b {
-	case 253:
-		s := buf.Slice(5)
-		return int(binary.BigEndian.Uint32(s)), int(s[4])
-	case 254:
-		panic(errors.Errorf("rdb: invalid zipmap item length"))
-	case 255:
+	if b == 255 {
 		return -1, 0
+	}
+	length := int(b)
+	if b == 254 {
+		length = int(buf.ReadUint32())
 	}
 	var free byte
 	if readFree {
 		free = buf.ReadByte()
 	}
-	return int(b), int(free)
+	return length, int(free)
 }
 
 func (r *RdbReader) CountZipmapItemsP(buf *util.SliceBuffer) int {
